@@ -263,6 +263,8 @@ def run(ctx):
         style = str(rng.choice(['noise', 'noise', 'exp', 'exp+noise', 'scaled', 'list', 'int']))
         fname = str(rng.choice(['arcovar', 'modcovar', 'pcovar', 'pmodcovar']))
         mod = fname in ('modcovar', 'pmodcovar')
+        if rng.integers(0, 15) == 0 and fname in ('arcovar', 'modcovar') and style not in ('exp', 'exp+noise'):
+            p = 0                                   # order 0: a = [], e = signal energy (twice for the stacked matrix)
         if style == 'exp':
             x, _z = exact_exp(rng, N, p)
         elif style == 'exp+noise':
@@ -277,7 +279,7 @@ def run(ctx):
         elif style == 'int' and not np.iscomplexobj(x):
             x = np.round(x * 4); arg = x.astype(int)
         T = datamat(x, p, mod); Xc = T[:, 1:]; X1 = T[:, 0]
-        sv = np.linalg.svd(Xc, compute_uv=False)
+        sv = np.linalg.svd(Xc, compute_uv=False) if p > 0 else np.array([1.0])
         if sv[-1] <= 0 or (sv[0] / sv[-1]) ** 2 > 1e6:
             ctx.count('regenerated_illconditioned'); continue
         kap2 = float((sv[0] / sv[-1]) ** 2); s = float(np.vdot(X1, X1).real)
@@ -295,7 +297,7 @@ def run(ctx):
             {'arcovar': 'covar_case', 'modcovar': 'modcovar_case', 'pcovar': 'pcovar_case', 'pmodcovar': 'pmodcovar_case'}[fname],
             tol, tolq(s), czl(x), p, 'true' if raised else 'false', czl(a), cz(e)))
         meta.append({'function': fname, 'style': style, 'x': vlib.hexv(x), 'order': p, 'impl_raised': raised})
-        ctx.count('corr/%s/%s/%s' % (fname, style, 'raised' if raised else 'returned'))
+        ctx.count('corr/%s/%s/%s' % (fname, style if p else 'order0', 'raised' if raised else 'returned'))
         ctx.case((fname, np.asarray(x).tobytes(), p), nontrivial=(p >= 2),
                  sample={'function': fname, 'style': style, 'x': [str(t) for t in x], 'order': p})
     for i in ctx.coq_cases('c14_covar', PRE, cases, shard=30,
@@ -419,6 +421,15 @@ def run(ctx):
             if close and p >= 2:
                 f[1] = f[0] + 10.0 ** rng.uniform(-3.5, -1.5)
             z = np.exp(2j * np.pi * f); x = sum(amp[i] * z[i] ** t for i in range(p))
+            if close and p >= 2 and rng.integers(0, 2) == 0:
+                # steer the pair into the band cond = 1e6..1e8: full column rank in double precision, yet any
+                # regularisation / truncation of the solver shows
+                for _ in range(16):
+                    sv = np.linalg.svd(datamat(x, p, False)[:, 1:], compute_uv=False)
+                    if sv[-1] <= 0 or sv[0] / sv[-1] >= 3e6:
+                        break
+                    f[1] = f[0] + (f[1] - f[0]) / 2.0
+                    z = np.exp(2j * np.pi * f); x = sum(amp[i] * z[i] ** t for i in range(p))
         else:
             f = rng.uniform(0.02, 0.48, p // 2); amp = rng.uniform(0.5, 2, p // 2); ph = rng.uniform(0, 2 * np.pi, p // 2)
             if close and p >= 4:
